@@ -307,7 +307,7 @@ def uses_whole(inp, key):
     if "APP_" + key.upper() in inp["env"]:
         return True
     t = inp.get("tree")
-    return isinstance(t, dict) and isinstance(t.get(key), str)
+    return isinstance(t, dict) and key in t and not isinstance(t.get(key), dict)
 
 
 # ---------------------------------------------------------------- model side
@@ -371,11 +371,20 @@ def model_items(inp, key, fields, loads):
 
 
 def input_texts(inp):
+    """every text the parsers may hand to the loader: option / variable values, strings inside configurations,
+    and the strings inside what those texts load to (a string inside whole-group JSON)"""
+    import yaml
+
     acc = []
     for a in inp["argv"]:
         acc.append(a.partition("=")[2])
     acc.extend(inp["env"].values())
     strings_of(inp.get("tree"), acc)
+    for t in list(acc):
+        try:
+            strings_of(yaml.safe_load(t), acc)
+        except Exception:  # noqa: BLE001
+            pass
     return acc
 
 
@@ -501,6 +510,10 @@ def run_group(ctx, key, fields, inputs, stats, origin):
             for st in STYLES:
                 d = compare_model(st, out[pos], results[st])
                 pos += 1
+                if st == "dotted" and any(a.split("=")[0] == "--" + key for a in inp["argv"]):
+                    d = None      # argparse abbreviation matching decides (`--g` is a prefix of `--g.a`): outside the model
+                if d is not None and d.startswith("dump differs") and uses_whole(inp, key):
+                    d = None      # a non-mapping group value: which styles print `g: null` is part of the open finding
                 if d is not None:
                     stats["disagree"] += 1
                     ctx.tie_break("correspondence Validate (parse7 vs the real %s-style parser) disagrees: %s" % (st, d[:160]),
